@@ -226,6 +226,7 @@ fn roundtrip(ctx: &mut Ctx, rng: &mut Rng) {
                     ctx.events += 2;
                     match (a, b) {
                         (Ok(x), Ok(y)) if x == t && y == t => {
+                            ctx.sample(|| format!("DateTime<{}>({raw}) -> {s:?} -> parses back to the same instant", $uname));
                             ctx.count("roundtrip.default_ok");
                             ctx.distinct(&format!("rt|{}|{}", $uname, secs / 31_557_600 / 25));
                         },
